@@ -679,13 +679,19 @@ int main(int argc, char** argv) {
                         for (auto& kv : named[i]) if (byname.count(kv.first)) vals_a[kv.second] = byname[kv.first];
                         int bad = 0, pts = 0; std::string info;
                         try {
-                            ArrayEvaluator ea(roots[i], vals_a), eb(sh.tree, vals_b);
+                            struct ArS : public ArrayEvaluator {
+                                ArS(std::shared_ptr<Deck> d, const std::map<Tree::Id, float>& vs)
+                                    : BaseEvaluator(d, vs), ArrayEvaluator(d, vs) {}
+                                bool any_nan() const { for (long k = 0; k < v.rows(); ++k) if (std::isnan(v(k, 0))) return true; return false; }
+                            };
+                            ArS ea(std::make_shared<Deck>(roots[i]), vals_a), eb(std::make_shared<Deck>(sh.tree), vals_b);
                             for (int q = 0; q < 6; ++q) {
                                 Eigen::Vector3f p(0.37f * q - 1.0f, 0.81f - 0.29f * q, 0.13f * q * q - 0.5f);
                                 float va = ea.value(p), vb = eb.value(p);
                                 // min/max treat a NaN operand differently by position and the optimiser
-                                // orders operands by address: points with a NaN are outside the domain
-                                if (std::isnan(va) || std::isnan(vb)) continue;
+                                // orders operands by address: points where ANY sub-expression is NaN are
+                                // outside the domain (a finite result can still depend on the order)
+                                if (std::isnan(va) || std::isnan(vb) || ea.any_nan() || eb.any_nan()) continue;
                                 ++pts;
                                 bool same = va == vb ||
                                             std::fabs(va - vb) <= 1e-4f * (1 + std::fabs(va));
@@ -1248,7 +1254,8 @@ int main(int argc, char** argv) {
                 Root<VolTree> vol;
                 if (use_vol) {
                     // acceleration volume tree, built at a coarser resolution over the same region
-                    BRepSettings vs; vs.workers = st.workers; vs.min_feature = st.min_feature * 2;
+                    BRepSettings vs; vs.workers = st.workers;
+                    vs.min_feature = st.min_feature * (use_vol == 1 ? 1.0 : use_vol == 2 ? 2.0 : 4.0);
                     vol = VolWorkerPool::build(tr, rg, vs);
                     st.vol = vol.get();
                 }
